@@ -12,6 +12,7 @@ HasAccessibles.__init_subclass__ machinery), so that a violation case can carry 
              'commands': [command, ...]}
     param = {'name', 'spec' (catalogue type spec as JSON), 'mode': 'ro'|'ro_write'|'rw_write'|'rw_nowrite'|'const',
              'export': True|False|'<custom wire name>', 'default': <V.enc of a driver-side value>, 'rfunc': bool,
+             'rret': <V.enc of the value a read_<p> method returns when nothing is scripted (default: the cached value)>,
              'wret': 'none'|'same', 'unit': str, 'inherit': bool (override of an inherited parameter: no description)}
     command = {'name', 'arg': None|spec, 'result': None|spec, 'export': ..., 'ret': <V.enc of the scripted result>}
 
@@ -164,6 +165,7 @@ def export_of(spec, r):
 # class construction
 
 _cache = {}
+NOTGIVEN = object()
 
 
 def _mk_write(pname, wret):
@@ -175,11 +177,12 @@ def _mk_write(pname, wret):
     return write
 
 
-def _mk_read(pname):
+def _mk_read(pname, rret=NOTGIVEN):
     def read(self):
         drv = module_driver(self)
         drv.log.append(('read', pname))
-        return drv.answer(('read', pname), self.parameters[pname].value)
+        # the hardware answers the scripted value, else the class's fixed reading ('rret'), else the cached value
+        return drv.answer(('read', pname), self.parameters[pname].value if rret is NOTGIVEN else rret)
     read.__name__ = 'read_' + pname
     return read
 
@@ -272,7 +275,7 @@ def make_class(shape):
             if mode in ('rw_write', 'ro_write'):
                 ns['write_' + p['name']] = _mk_write(p['name'], p.get('wret', 'none'))
             if p.get('rfunc'):
-                ns['read_' + p['name']] = _mk_read(p['name'])
+                ns['read_' + p['name']] = _mk_read(p['name'], V.dec(p['rret']) if 'rret' in p else NOTGIVEN)
         for lname in level.get('limits', []):
             ns[lname] = Limit()
         for pname, chk in level.get('checks', {}).items():
@@ -443,3 +446,28 @@ HIDDEN_SHAPE = {
     'levels': [{'params': [P('target', D010, 'rw_write', inherit=True), P('hp', I09, 'rw_write'),
                            P('hc', I09, 'rw_write', export='hcustom')],
                 'commands': [C('hcmd', I09), C('go')]}]}
+
+
+def shapes_c06(tier):
+    """classes used by C06 only (kept out of shapes(): C04's alphabet and counts do not depend on them):
+    constants on classes whose read_<p> returns something else (constant given in the class / to be given in the cfg),
+    scaled integers on scales that are exact in binary"""
+    h = ('scaled', 0.5, -10.0, 10.0)
+    q = ('scaled', 0.25, 0.0, 5.0)
+    o = ('scaled', 1.0, -3.0, 3.0)
+    t = ('scaled', 2.0, -10.0, 10.0)
+    gk = {
+        'name': 'GK', 'base': 'Module', 'features': [],
+        'levels': [
+            {'params': [P('kc', I09, 'const', dflt=3, rfunc=True, rret=V.enc(7)),
+                        P('kcs', S3, 'const', dflt=3, rfunc=True, rret=V.enc('zz')),
+                        P('kch', h, 'const', dflt=4, rfunc=True, rret=V.enc(2.5)),
+                        P('kr', I09, 'ro', rfunc=True, rret=V.enc(5)),
+                        P('krq', q, 'ro', rfunc=True, rret=V.enc(1.25)),
+                        P('kre', EN, 'ro', rfunc=True, rret=V.enc(2)),
+                        P('h', h, 'rw_write', dflt=2), P('q', q, 'rw_write', wret='same', dflt=2),
+                        P('o', o, 'rw_nowrite', dflt=2), P('t', t, 'rw_write', dflt=2),
+                        P('ah', ('array', h, 1, 2), 'rw_write'), P('sq', ('struct', (('a', q), ('b', o)), ('b',)), 'rw_write')],
+             'commands': []},
+        ]}
+    return [gk]
